@@ -501,7 +501,10 @@ class Translator:
             try:
                 self.mod = ast.parse(source)
             except SyntaxError as e:
-                raise TranslateError(None, "syntax error: %s" % e)
+                err = TranslateError(None, "syntax error: %s" % e)
+                err.line = e.lineno or "?"
+                err.args = ("%s:%s: not in the translatable grammar: syntax error: %s" % (SRC, err.line, e.msg),)
+                raise err
         self.funcs = {}
         self.module_error = None
         self.errors = {}       # group -> TranslateError
